@@ -114,6 +114,31 @@ Definition split (s : store) (parent : N) (key : bytes) (child : rmeta) : store 
                 end
        end.
 
+(** The same command when the child names no peer on this store: the peer
+    builder ([buildChildPeerConfig]) rejects the child AFTER the parent was
+    shrunk, and [SplitRegion] puts the parent back ([UpdateRegion(originalParent)],
+    error ignored). The command fails; no child is recorded. *)
+Definition split_unhosted (s : store) (parent : N) (key : bytes) (child : rmeta) : store * bool :=
+  let child1 := set_state child 1 in
+  let child2 := if bytes_eqb (g_start (r_reg child1)) [] then set_start child1 key else child1 in
+  if parent =? 0 then (s, false)
+  else if rid child2 =? 0 then (s, false)
+  else if bytes_eqb (g_start (r_reg child2)) [] then (s, false)
+  else match rfind parent (smem s) with
+       | None => (s, false)
+       | Some p =>
+           let sk := g_start (r_reg child2) in
+           if negb (bytes_eqb (g_end (r_reg p)) []) && negb (bytes_ltb sk (g_end (r_reg p))) then (s, false)
+           else if bytes_leb sk (g_start (r_reg p)) then (s, false)
+           else match update_region s (bump (set_end p sk)) with
+                | None => (s, false)
+                | Some s1 => match update_region s1 p with
+                             | Some s3 => (s3, false)
+                             | None => (s1, false)
+                             end
+                end
+       end.
+
 (** [handleMergeCommand] after the repair (fixes/C24-merge-adjacency.md).
     [StopPeer] of the source's peer only moves the source to Removing (error
     ignored) before [RemoveRegion] tombstones and deletes it, so the resulting
@@ -166,6 +191,7 @@ Inductive op :=
 | OpSetState (id st : N)                     (* Store.UpdateRegionState *)
 | OpRemove (id : N)                          (* Store.RemoveRegion *)
 | OpSplit (parent : N) (key : bytes) (child : rmeta)
+| OpSplitUnhosted (parent : N) (key : bytes) (child : rmeta)   (* child without a peer on this store *)
 | OpMerge (target source : N).
 
 Definition of_opt (s : store) (o : option store) : store * bool :=
@@ -177,6 +203,7 @@ Definition apply (s : store) (o : op) : store * bool :=
   | OpSetState id st => of_opt s (update_region_state s id st)
   | OpRemove id => of_opt s (remove_region s id)
   | OpSplit p k c => split s p k c
+  | OpSplitUnhosted p k c => split_unhosted s p k c
   | OpMerge t src => merge s t src
   end.
 
